@@ -2,9 +2,9 @@
 import ast
 
 from ..cfg import witness
-from ..core import AnalysisError, u, walk_local, enclosing_stmt
+from ..core import AnalysisError, u, walk_local, enclosing_stmt, ancestors
 from ..lib import (construct, std_facts, def_of, copy_kind, at_least, facts_at,
-                   facts_imply, calls_of_node, in_subtree)
+                   facts_imply, calls_of_node, in_subtree, returns_of)
 from .wrapper import WrapperModel
 from .common import allowed_stores, fresh_kwarg_defaults, signature_agreement
 
@@ -123,54 +123,54 @@ def run(ctx):
       return 'repr'
     return None
 
+  spec = '(allow and not in_allow) or (deny and in_deny) or (not repr)'
   dels = [n for n in g2.live_nodes() if n.kind == 'stmt' and isinstance(n.ast, ast.Delete)]
+  retvars = {r.value.id for r in returns_of(df) if isinstance(r.value, ast.Name)}
+  keeps = [n for n in g2.live_nodes() if n.kind == 'stmt' and isinstance(n.ast, ast.Assign) and isinstance(n.ast.targets[0], ast.Subscript)
+           and u(n.ast.targets[0].value) in retvars and u(n.ast.targets[0].slice) == 'k']
+  comps = [r.value for r in returns_of(df) if isinstance(r.value, ast.DictComp)] + \
+          [a.value for a in walk_local(df.node) if isinstance(a, ast.Assign) and u(a.targets[0]) in retvars and isinstance(a.value, ast.DictComp)]
   ok = False
-  detail = 'no deletion of non-configurable defaults found'
-  if dels:
-    dn = dels[0]
-    fs = set(facts2[dn.id])
-    # inline single-assignment flags into the guard
-    expanded = set()
-    for fct in fs:
-      if fct[0] != 'c':
-        continue
-      text = fct[1]
-      t = ast.parse(text, mode='eval').body
-      class Sub(ast.NodeTransformer):
-        def visit_Name(self, n):
-          d = def_of(fs, n.id)
-          if d is not None and n.id not in ('allowlist', 'denylist', 'k'):
-            try:
-              return ast.parse(d, mode='eval').body
-            except SyntaxError:
-              return n
-          return n
-      t2 = Sub().visit(t)
-      expanded.add(('c', ast.unparse(t2), fct[2]))
-    spec = '(allow and not in_allow) or (deny and in_deny) or (not repr)'
-    # deleted => spec   and   kept (loop continues without delete) => not spec: check the guard itself
-    m1 = facts_imply(expanded, [('deleted only if', spec)], atom)
-    # find the guarding test to check the converse
-    conv = []
+  detail = 'no filtering of non-configurable defaults found'
+
+  def guard_tests(node):
+    out = []
     for n in g2.live_nodes():
-      if n.kind == 'test' and any(b == dn.id for b, k in g2.succ[n.id] if k == 'T'):
-        tfacts = set()
-        for fct in facts2[n.id]:
-          if fct[0] == 'def':
-            tfacts.add(fct)
-        t = ast.parse(u(n.ast), mode='eval').body
-        class Sub2(ast.NodeTransformer):
-          def visit_Name(self, nn):
-            d = def_of(facts2[n.id], nn.id)
-            if d is not None and nn.id not in ('allowlist', 'denylist', 'k'):
-              try:
-                return ast.parse(d, mode='eval').body
-              except SyntaxError:
-                return nn
-            return nn
-        t2 = Sub2().visit(t)
-        conv = facts_imply({('c', ast.unparse(t2), False)}, [('kept only if', 'not (%s)' % spec)], atom)
+      if n.kind == 'test' and any(b == node.id for b, k in g2.succ[n.id] if k == 'T'):
+        out.append(n)
+    return out
+
+  def converse(node, want):
+    """The guarding test being false must imply `want`."""
+    res = []
+    for t in guard_tests(node):
+      r = True
+      for tx in (t.ast, g2.expanded.get(t.id), g2.expanded_bool.get(t.id)):
+        if tx is not None and r:
+          r = facts_imply({('c', u(tx), False)}, [('converse', want)], atom)
+      if r:
+        res = r
+    return res
+  if dels and not keeps and not comps:
+    dn = dels[0]
+    m1 = facts_imply(facts2[dn.id], [('deleted only if', spec)], atom)
+    conv = converse(dn, 'not (%s)' % spec)
     ok = not m1 and not conv
+    detail = 'counter-example over guard atoms: %s' % ((m1 or conv)[0][1] if (m1 or conv) else '')
+  elif keeps and not dels and not comps:
+    kn = keeps[0]
+    inits = [a for a in walk_local(df.node) if isinstance(a, ast.Assign) and u(a.targets[0]) in retvars]
+    empty = all(isinstance(a.value, ast.Dict) and not a.value.keys for a in inits) and bool(inits)
+    m1 = facts_imply(facts2[kn.id], [('kept only if', 'not (%s)' % spec)], atom)
+    conv = converse(kn, spec)
+    ok = empty and not m1 and not conv
+    detail = 'counter-example over guard atoms: %s' % ((m1 or conv)[0][1] if (m1 or conv) else ('result not built from an empty dict' if not empty else ''))
+  elif comps and not dels and not keeps:
+    c = comps[0]
+    cond = ' and '.join('(%s)' % u(i) for i in c.generators[0].ifs) or 'True'
+    m1 = facts_imply({('c', cond, True)}, [('kept only if', 'not (%s)' % spec)], atom)
+    conv = facts_imply({('c', cond, False)}, [('dropped only if', spec)], atom)
+    ok = not m1 and not conv and u(c.key) == 'k'
     detail = 'counter-example over guard atoms: %s' % ((m1 or conv)[0][1] if (m1 or conv) else '')
   ctx.check(ok, 'C07.defaults', construct(df),
             'a signature default is dropped iff it is outside a non-empty allowlist, inside the denylist, or not literally representable',
@@ -186,7 +186,9 @@ def run(ctx):
   ctx.check(bool(skips), 'C07.sections', construct(cs), 'sections for the macro and constant configurables are skipped in the per-configurable listing',
             'the per-configurable listing no longer skips macro / constant-lookup entries: constant lookups would get a section', cs.loc(), instance='skip')
   mac = [n for n in walk_local(cs.node) if isinstance(n, ast.If) and u(n.test).replace(' ', '') in
-         ('_REGISTRY[selector].wrapped==macro',)]
+         ('_REGISTRY[selector].wrapped==macro', 'macro==_REGISTRY[selector].wrapped')]
+  mac += [n for n in walk_local(cs.node) if isinstance(n, ast.comprehension) and
+          any(u(i).replace(' ', '') in ('_REGISTRY[selector].wrapped==macro', 'macro==_REGISTRY[selector].wrapped') for i in n.ifs)]
   ctx.check(bool(mac), 'C07.sections', construct(cs), 'macro entries are collected for the macro block', 'macro entries are no longer collected into the macro block',
             cs.loc(), instance='macros')
   # constant-key subscripts on record entries
@@ -200,6 +202,18 @@ def run(ctx):
     fs = facts_at(g3, facts3, st) or frozenset()
     key = repr(sub.slice.value)
     guarded = any(f[0] == 'c' and f[2] is True and f[1].replace(' ', '') == '%sin%s' % (key, u(sub.value)) for f in fs)
+    # short-circuit guard inside the same expression:  K in D and ... D[K] ...
+    child = sub
+    for anc in ancestors(sub):
+      if isinstance(anc, ast.BoolOp) and isinstance(anc.op, ast.And):
+        idx = next((i for i, v in enumerate(anc.values) if v is child), None)
+        if idx is not None and any(u(v).replace(' ', '') == '%sin%s' % (key, u(sub.value)) for v in anc.values[:idx]):
+          guarded = True
+      if isinstance(anc, ast.IfExp) and child is anc.body and u(anc.test).replace(' ', '') == '%sin%s' % (key, u(sub.value)):
+        guarded = True
+      if isinstance(anc, ast.stmt):
+        break
+      child = anc
     ctx.check(guarded, 'C07.present', construct(cs),
               'subscript %s is guarded by a membership test' % u(sub),
               'the serialiser reads `%s` without checking that the key is present: the operative record entry of a macro is created '
